@@ -8,7 +8,8 @@ import json, os, re, shutil, subprocess, sys, glob
 
 ID, K = sys.argv[1], sys.argv[2]
 TIER = sys.argv[3] if len(sys.argv) > 3 else "quick"
-base = "/tmp/seed/%s" % ID
+ROUND = os.environ.get("SEED_ROUND", "")
+base = "/tmp/seed%s/%s" % (ROUND, ID)
 out = "%s/out/%s" % (base, K)
 wt = base + "/wt"
 tgt = base + "/target"
@@ -86,7 +87,7 @@ else:
     res["check"] = {"error": "patch does not apply to /repo: " + o[:300]}
 if os.path.exists(bak):
     shutil.move(bak, ev)
-dst = "/verif/seeded/%s-%s" % (ID, K)
+dst = "/verif/seeded/%s-%s%s" % (ID, ("r%s-" % ROUND) if ROUND else "", K)
 if os.path.exists(dst):
     shutil.rmtree(dst)
 os.makedirs(dst)
